@@ -163,10 +163,12 @@ def correspondence(ctx: core.Ctx) -> None:
     # every single python leaf (all operators; literals incl. the two-digit 3.10 / 3.10.0 / 3.8.10) reduced by ranges open on
     # either side: the rewriting of `python_full_version >= "X.Y.0"` into `python_version >= "X.Y"` happens on this path
     leaves = G.python_leaf_universe() + [f'python_full_version {op} "{v}"' for op in G.VOPS for v in ("3.10.0", "3.8.10", "3.9.20", "3.11.0")]
-    ranges = [">=3.8", ">=3.7", "<3.12", ">=3.8,<3.12", "^3.9", "~3.10", ">=3.10", "<3.10", ">=3.6,<3.10 || >=3.11"]
+    ranges = [">=3.8", ">=3.7", "<3.12", ">=3.8,<3.12", "^3.9", "~3.10", ">=3.10", "<3.10", ">=3.6,<3.10 || >=3.11",
+              ">=3.8.1,<4.0", ">3.8", ">=3.8.1,<3.9", "3.8.1", "<=3.9.5", ">=3.9.1,<3.10.2"]    # ends inside a minor release
     uni = [{"kind": "reduce", "a": a, "c": c} for a in leaves for c in ranges]
     if not ctx.thorough:
-        uni = ctx.rng.sample(uni, 350) + [{"kind": "reduce", "a": f'python_full_version {op} "3.10.0"', "c": c} for op in (">=", "<") for c in ranges[:4]]
+        uni = (ctx.rng.sample(uni, 450) + [{"kind": "reduce", "a": f'python_full_version {op} "3.10.0"', "c": c} for op in (">=", "<") for c in ranges[:4]]
+               + [{"kind": "reduce", "a": f'python_version {op} "3.8"', "c": c} for op in (">", "!=", "<=", "==") for c in ranges[9:13]])
     for k in range(0, len(uni), 1200):
         run(ctx, uni[k:k + 1200], "reduce-leaf-universe")
 
